@@ -597,4 +597,111 @@ example : (FSys.run handTable {} [.main, .readRet (.rune 0x1B), .main, .main, .m
     (fun r => (r.1.cbs[0]?, r.1.escGen, quietMain r.1.mpc, r.1.closeReq, r.1.chanClosed)) =
     some (some (1, .started), 1, true, false, false) := by decide +kernel
 
+/-! ### the two reductions of the enumeration commute in the LTS -/
+
+/-- two statements one after the other -/
+def step2 (T : Table) (f : FSys) (a b : FLabel) : Option (FSys × List Seq) := FSys.run T f [a, b]
+
+/-- **`Close()` commutes with every statement except the `select`** (nothing else reads `p.close`):
+    issuing it before or after any other statement — of the main goroutine unless it stands in front
+    of the `select`, of a callback, a read return, an expiry — gives the same state and the same
+    items.  So a schedule loses nothing when every `Close()` is moved forward to the next `select`
+    (reduction 1 of `enumerate`). -/
+theorem closeSig_commutes (T : Table) (f : FSys) (l : FLabel) (hsel : ¬ (l = .main ∧ f.mpc = .atSelect)) :
+    step2 T f .closeSig l = step2 T f l .closeSig := by
+  simp only [step2, FSys.run, FSys.step]
+  cases l with
+  | closeSig => rfl
+  | readRet i =>
+    simp only [FSys.step]
+    by_cases h : f.mpc = .inRead <;> simp [h]
+  | expire =>
+    simp only [FSys.step]
+    cases h : f.armed <;> simp
+  | main =>
+    simp only [FSys.step, mainStep]
+    cases hpc : f.mpc with
+    | atSelect => exact absurd ⟨rfl, hpc⟩ hsel
+    | inRead => simp
+    | done => simp
+    | readDone i => simp
+    | stopped i => by_cases hm : f.mutex = none <;> simp [hm]
+    | locked i => simp
+    | bumped i => simp
+    | stepped b => simp
+    | fin st v =>
+      cases st <;> simp
+      by_cases hm : f.mutex = none <;> simp [hm]
+  | cb k =>
+    simp only [FSys.step, cbStep]
+    cases hk : f.cbs[k]? with
+    | none => simp
+    | some c =>
+      obtain ⟨g, pc⟩ := c
+      cases pc <;> simp
+      by_cases hm : f.mutex = none <;> simp [hm]
+
+/-- **A timer expiry commutes with every statement that does not touch the timer**: while the timer
+    is pending, letting it expire before or after a statement `l` gives the same state and items,
+    for every `l` except the statements that stop or (re-)arm the timer (`Stop()` in `readRune`,
+    `Stop()` after the loop, `anywhere`), another expiry, and the first statement of the very callback
+    this expiry starts.  So the callback of a timer that expires
+    at all may be taken to have started right after the timer was armed (reduction 2 of `enumerate`):
+    its first statement can still be scheduled at any later point. -/
+theorem expire_commutes (T : Table) (f : FSys) (g : Nat) (l : FLabel) (ha : f.armed = some g)
+    (hl : l ≠ .expire)
+    (hm : l = .main → (∀ i, f.mpc ≠ .readDone i) ∧ (∀ v, f.mpc ≠ .fin .stop v) ∧ (∀ i, f.mpc ≠ .bumped i))
+    (hcb : ∀ k, l = .cb k → k ≠ f.cbs.length) :
+    step2 T f .expire l = step2 T f l .expire := by
+  simp only [step2, FSys.run, FSys.step, ha]
+  cases l with
+  | expire => exact absurd rfl hl
+  | closeSig => simp [FSys.step, ha]
+  | readRet i =>
+    simp only [FSys.step]
+    by_cases h : f.mpc = .inRead <;> simp [h, ha]
+  | main =>
+    obtain ⟨h1, h2, h3⟩ := hm rfl
+    simp only [FSys.step, mainStep]
+    cases hpc : f.mpc with
+    | atSelect => by_cases hc : f.closeReq = true <;> simp [hc, ha]
+    | inRead => simp
+    | done => simp
+    | readDone i => exact absurd hpc (h1 i)
+    | stopped i => by_cases hmx : f.mutex = none <;> simp [hmx, ha]
+    | locked i => simp [ha]
+    | bumped i => exact absurd hpc (h3 i)
+    | stepped b => simp [ha]
+    | fin st v =>
+      cases st with
+      | stop => exact absurd hpc (h2 v)
+      | lock => by_cases hmx : f.mutex = none <;> simp [hmx, ha]
+      | bump => simp [ha]
+      | unlock => simp [ha]
+      | emit => simp [ha]
+      | close => simp [ha]
+  | cb k =>
+    simp only [FSys.step, cbStep]
+    by_cases hlt : k < f.cbs.length
+    · have e1 : (f.cbs ++ [(g, CbPc.started)])[k]? = f.cbs[k]? := List.getElem?_append_left hlt
+      rw [e1]
+      cases hk : f.cbs[k]? with
+      | none => simp
+      | some c =>
+        obtain ⟨gk, pc⟩ := c
+        have hset : ∀ x, (f.cbs ++ [(g, CbPc.started)]).set k x = f.cbs.set k x ++ [(g, CbPc.started)] := fun x => by
+          rw [List.set_append_left _ _ hlt]
+        cases pc <;> simp [ha, hset]
+        by_cases hmx : f.mutex = none <;> simp [hmx, ha, hset]
+    · -- `k` names no callback yet: the statement is not enabled before the expiry …
+      have hnone : f.cbs[k]? = none := List.getElem?_eq_none (Nat.le_of_not_lt hlt)
+      simp only [hnone]
+      -- … nor after it (`k` is not the callback this expiry starts)
+      have hk : k ≠ f.cbs.length := hcb k rfl
+      · have : (f.cbs ++ [(g, CbPc.started)])[k]? = none := by
+          apply List.getElem?_eq_none
+          simp only [List.length_append, List.length_cons, List.length_nil]
+          omega
+        simp [this]
+
 end VaxisModel.Props.C08Sched
